@@ -54,20 +54,54 @@ Definition spec_domain (sp : rspec) (j : json) : bool :=
   | _ => false
   end.
 
+(* the same domain without the exclusion of look-alike names: a member whose name differs from a
+   keep-list name by case (or by the two non-ASCII letters encoding/json folds) is, for the
+   specification, just another member outside the list; a member written more than once counts
+   with its last value (what every map-based reader sees).  Finding F66. *)
+Definition folded_top (k : bytes) : bool :=
+  negb (mem_bytes k top_v1) && mem_bytes (lower (fold_name k)) top_v1.
+
+Fixpoint last_wins (m : list (bytes * json)) : list (bytes * json) :=
+  match m with
+  | [] => []
+  | (k, v) :: r => if mem_bytes k (map fst r) then last_wins r else (k, v) :: last_wins r
+  end.
+
+Definition spec_domain_wide (sp : rspec) (j : json) : bool :=
+  match j with
+  | JObj m =>
+      nodup_keys [] m &&
+      forallb (fun kv => bytes_eqb (utf8_sanitize (fst kv)) (fst kv)) m &&
+      match assoc_first type_key m with Some (JStr s) => bytes_eqb (utf8_sanitize s) s | None => true | _ => false end &&
+      match assoc_first content_key m with Some (JObj c) => plain_value (JObj c) | None => true | _ => false end
+  | _ => false
+  end.
+
 (* [ver; event text; raw output] *)
 Definition prop_spec (args : list bytes) : bytes :=
   match args with
   | [ver; txt; out] =>
       match spec_of_version ver, parse_json txt with
       | Some sp, Some (JObj m) =>
+          let got := match parse_json out with Some o => canon_print o | None => out end in
           if spec_domain sp (JObj m) then
             let want := canon_print (JObj (spec_redact sp m)) in
-            let got := match parse_json out with Some o => canon_print o | None => out end in
             if bytes_eqb want got then bs "ok"
             else if bytes_eqb (canon_print (JObj (spec_redact (without_tpi_signed sp) m))) got
             then bs "FAIL-TPI-SIGNED the signed key of third_party_invite was dropped"
             else bs "FAIL spec=" ++ want ++ bs " impl=" ++ got
-          else bs "outside-domain"
+          else
+            let m1 := last_wins m in
+            let odd := negb (nodup_keys [] m) || existsb (fun kv => folded_top (fst kv)) m in
+            if odd && spec_domain_wide sp (JObj m1) then
+              let want := canon_print (JObj (spec_redact sp m1)) in
+              if bytes_eqb want got then bs "ok"
+              else if bytes_eqb (canon_print (JObj (spec_redact (without_tpi_signed sp) m1))) got
+              then bs "FAIL-TPI-SIGNED the signed key of third_party_invite was dropped"
+              else if bytes_eqb got (run_redact [ver; txt])
+              then bs "FAIL-FOLDED-MEMBER a member outside the keep-list (look-alike name or repetition) reached the redacted form"
+              else bs "FAIL spec=" ++ want ++ bs " impl=" ++ got
+            else bs "outside-domain"
       | None, _ => bs "unknown-version"
       | _, _ => bs "outside-domain"
       end
